@@ -24,6 +24,15 @@ def run(ctx):
     ctx.oracle_stream('normalize-lines-up', d + '/c11.verdicts', d + '/c11.cases')
     # the theorem C11_restricted predicts the oracle's verdict wherever its two boolean hypotheses hold: evaluate
     # them (extracted NormProof.flushes_ok / canon_resid, on the dumped tables) on every license-bearing input
+    if ue:
+        # C11_restricted is stated for tables satisfying NormProof.tables_ok; NormTables.norm_tables_wf_ok derives that
+        # from a boolean check, evaluated here on the tables dumped from the running code (every rune below the bound)
+        rc, out = vcheck.sh([vcheck.BUILD + '/extract/driver', 'normwf', d, ue])
+        ok = rc == 0 and out.strip().endswith('true')
+        ctx.assumptions.append('norm_tables_wf (NormTables.v; implies tables_ok, the table hypothesis of C11_restricted) evaluated by the '
+                               'extracted model on the dumped Unicode/punctuation/interchangeable tables: %s' % ('true' if ok else 'FALSE'))
+        if not ok:
+            ctx.gate_breaks.append('the tokenizer tables of the running code left the class the C11 theorem is proved for (norm_tables_wf = false): ' + out[-200:])
     if ue and ctx.driver('normhyp', d + '/normalize.cases', d + '/normhyp.out', extra=[d, ue]):
         hyp = [l for l in open(d + '/normhyp.out').read().split('\n') if l]
         ver = [l for l in open(d + '/c11.verdicts').read().split('\n') if l]
